@@ -6,10 +6,21 @@ variant = sys.argv[2] if len(sys.argv) > 2 else "a"
 rec = [json.loads(l) for l in open("/verif/properties.jsonl") if json.loads(l)["id"] == pid][0]
 wt = f"/tmp/seed-{pid}{variant}"
 # later rounds: a property-independent nudge away from the most obvious code site (no information about the checks)
-NUDGE = "" if variant < "e" else ("(2b) do NOT take the first code site or mechanism that comes to mind: look through ALL files, entry points, "
+_N = {
+ "e": ("(2b) do NOT take the first code site or mechanism that comes to mind: look through ALL files, entry points, "
     "keyword options and code paths that the property's statement, quantifier and anchors mention (also the rarely used ones: optional "
     "arguments with non-default values, alternative input types, the 3-D / n-D variants, helper functions shared by several entry points) "
-    "and pick one that a quick reviewer would be least likely to exercise.\n ")
+    "and pick one that a quick reviewer would be least likely to exercise.\n "),
+ "f": ("(2b) do NOT take the first code site or mechanism that comes to mind. Prefer a bug that shows only through STATE or INTERPLAY: "
+    "an object used twice (second call differs from the first), a value cached or stored on an object and reused later, two objects that end up "
+    "sharing a mutable value, an input array modified in place, a result that depends on what was computed before, the order in which two "
+    "things are done, or a default that is only right for the first use. The property must still be the one that is violated.\n "),
+ "g": ("(2b) do NOT take the first code site or mechanism that comes to mind. Prefer a bug at a NUMERIC or STRUCTURAL EDGE that the property's "
+    "quantifier includes: values exactly on a boundary or exactly equal to each other, zero / negative / very large or very small magnitudes, "
+    "integer or float32 dtypes, lists or tuples instead of arrays, a single row or the smallest admissible size, the last element / last "
+    "interval / last dimension, a dimension count other than 2, or options at the ends of their admissible range.\n "),
+}
+NUDGE = _N.get(variant[-1], "") if variant >= "e" else ""
 print(f"""You are helping to evaluate a verification effort for the open-source Python library `virocon` (environmental contours from hierarchical joint distributions). Your job is to play the role of a developer who introduces a subtle bug.
 
 Work ONLY in your own scratch git worktree of the repository; create it first:
